@@ -17,13 +17,13 @@ import (
 )
 
 type resetExtra struct {
-	P0Import string `json:"p0_import,omitempty"`
-	P0Export string `json:"p0_export,omitempty"`
-	P1Import string `json:"p1_import,omitempty"`
-	P1Export string `json:"p1_export,omitempty"`
-	Variant  string `json:"variant,omitempty"` // "" -> run both; "A" | "B"
-	Refresh  bool   `json:"refresh,omitempty"` // the peers ask with ROUTE-REFRESH instead of an operator soft reset out
-	Edit     *setEdit `json:"edit,omitempty"`  // instead of another assignment: a defined set of the assigned policy is edited in place
+	P0Import string   `json:"p0_import,omitempty"`
+	P0Export string   `json:"p0_export,omitempty"`
+	P1Import string   `json:"p1_import,omitempty"`
+	P1Export string   `json:"p1_export,omitempty"`
+	Variant  string   `json:"variant,omitempty"` // "" -> run both; "A" | "B"
+	Refresh  bool     `json:"refresh,omitempty"` // the peers ask with ROUTE-REFRESH instead of an operator soft reset out
+	Edit     *setEdit `json:"edit,omitempty"`    // instead of another assignment: a defined set of the assigned policy is edited in place
 }
 
 // setEdit: members removed from / added to the prefix set or community set of a policy.
